@@ -823,6 +823,17 @@ class StrCell:
             long = self.tail            # K + 50 (+1) characters -> K + 48
             return StrCell(self.n, self.ch, z3.And(self.tail, z3.BoolVal(False)), z3.BitVecVal(0, 21), z3.Or(self.cut, long))
         return None
+    def universal_newlines(self):
+        """the text as it comes out of a file object opened in text mode without newline="": a lone CR and CR LF become LF"""
+        CR, LF = z3.BitVecVal(0x0D, 21), z3.BitVecVal(0x0A, 21)
+        tr = [z3.If(c == CR, LF, c) for c in self.ch]
+        if STR_K == 2:
+            crlf = z3.And(self.n == 2, self.ch[0] == CR, self.ch[1] == LF, z3.Not(self.tail), z3.Not(self.cut))
+            n = z3.If(crlf, z3.BitVecVal(1, 8), self.n)
+            ch = [z3.If(crlf, LF, tr[0]), z3.If(crlf, z3.BitVecVal(0, 21), tr[1])]
+        else:
+            n, ch = self.n, tr
+        return StrCell(n, ch, self.tail, z3.If(self.sfx == CR, LF, self.sfx), self.cut)
     @staticmethod
     def ite(c, a, b):
         return StrCell(z3.If(c, a.n, b.n), [z3.If(c, x, y) for x, y in zip(a.ch, b.ch)], z3.If(c, a.tail, b.tail),
